@@ -212,6 +212,47 @@ class SStr(object):
     def join(self, it):
         return _join(self, it)
 
+    def _strip_set(self, chars):
+        if chars is None:
+            return [9, 10, 11, 12, 13, 28, 29, 30, 31, 32, 133, 160]
+        cc = codes_of(chars)
+        if any(not z3.is_int_value(c) for c in cc):
+            cc = [z3.IntVal(ord(x)) for x in chars.concretize()]
+        return [c.as_long() for c in cc]
+
+    def lstrip(self, chars=None):
+        """forks once per possible number of stripped characters (not per string)."""
+        st = self._strip_set(chars)
+        i = 0
+        while i < len(self.codes) and eng().decide(z3.Or([self.codes[i] == c for c in st])):
+            i += 1
+        return mk(self.codes[i:])
+
+    def rstrip(self, chars=None):
+        st = self._strip_set(chars)
+        j = len(self.codes)
+        while j > 0 and eng().decide(z3.Or([self.codes[j - 1] == c for c in st])):
+            j -= 1
+        return mk(self.codes[:j])
+
+    def strip(self, chars=None):
+        r = self.lstrip(chars)
+        return r.rstrip(chars) if isinstance(r, SStr) else K(str.rstrip(r, chars))
+
+    def translate(self, table):
+        out = []
+        for c in self.codes:
+            e = c
+            for k_, v in table.items():
+                if v is None or (isinstance(v, str) and len(v) != 1):
+                    return K(self.concretize().translate(table))
+                e = z3.If(c == k_, v if isinstance(v, int) else ord(v), e)
+            out.append(e)
+        return mk(out)
+
+    def isdigit(self):
+        return bool(self.codes) and eng().decide(z3.And([z3.And(c >= 48, c <= 57) for c in self.codes]))
+
     def startswith(self, p):
         pc = codes_of(p)
         if len(pc) > len(self.codes):
@@ -378,6 +419,25 @@ class K(str):
     def strip(self, *a):
         return K(str.strip(self, *a))
 
+    def lstrip(self, *a):
+        return K(str.lstrip(self, *a))
+
+    def rstrip(self, *a):
+        return K(str.rstrip(self, *a))
+
+    def translate(self, table):
+        return K(str.translate(self, table))
+
+    def startswith(self, p, *a):
+        if isinstance(p, SStr):
+            return SStr([_code_of(x) for x in str(self)]).startswith(p)
+        return str.startswith(self, p, *a)
+
+    def endswith(self, p, *a):
+        if isinstance(p, SStr):
+            return SStr([_code_of(x) for x in str(self)]).endswith(p)
+        return str.endswith(self, p, *a)
+
     def format(self, *a, **k):
         return K(str.format(self, *a, **k))
 
@@ -416,6 +476,13 @@ class DecNum(object):
 
     def __len__(self):
         return self.ndigits()
+
+    def _symx_len(self):
+        """len() of the decimal string: an over-approximation (any length >= 1) -- the repository uses it for progress output
+        only; a use in real logic would at worst produce a counterexample that fails to replay."""
+        d = eng().fresh("ndigits")
+        eng().assume(d >= 1)
+        return SymInt(d)
 
     def __repr__(self):
         return "<decnum>"
